@@ -119,7 +119,11 @@ func genRejection18(t *rapid.T, sc *Scenario) string {
 		if c.Form != FormConnectGet {
 			return ""
 		}
-		c.Method = "Unary"
+		// unspecified, and explicitly IDEMPOTENT (which is not "side-effect-free" either)
+		c.Method = rapid.SampledFrom([]string{"Unary", "UnaryIdem", "UnaryPlain"}).Draw(t, "get_method")
+		if rapid.Bool().Draw(t, "get_with_unknown_handler") {
+			sc.Config.Unknown = true // the refusal is the transcoder's to make, not a "no such endpoint" to hand on
+		}
 		return "pre:get_on_side_effects"
 	case "rest_wrong_method":
 		if c.Form != FormREST {
